@@ -126,3 +126,91 @@ theorem explodeEval_eq_spec (h : Hist Int) (pred : Int → Bool) (n fuel : Nat) 
       · simp only [hp, Bool.false_eq_true, if_false, specProg]
 
 end Dyce
+
+namespace Dyce
+
+/-- **core**: a nested `_expand` call on family member `j` at depth `d ≥ 1` under the whole-number
+limit `n ≥ d`, with fuel to spare, computes the bounded recursion with `n - d` levels left -/
+theorem specEval_subst (fam : List (Hist Int)) (tbl : Nat → Int → SubAct) (add : Bool) (start n : Nat) :
+    ∀ (k d fuel pn pd j : Nat), d + k = n → 1 ≤ d → k < fuel →
+      specEval (substFn fam tbl add start) (aggregateWeighted leInt) (lowestTerms leInt) fuel j
+        [srcOfHist (fam.getD j [])] none ⟨some (.int n), d, pn, pd⟩ = .ok (substSpec fam tbl add start k j) := by
+  intro k
+  induction k with
+  | zero =>
+    intro d fuel pn pd j hdk hd hf
+    obtain ⟨fuel', rfl⟩ : ∃ f', fuel = f' + 1 := ⟨fuel - 1, by omega⟩
+    rw [specEval_succ]
+    have hdn : d = n := by omega
+    subst hdn
+    have hd0 : d ≠ 0 := by omega
+    simp [cutNow, hd0, substFn, substSpec]
+  | succ k ih =>
+    intro d fuel pn pd j hdk hd hf
+    obtain ⟨fuel', rfl⟩ : ∃ f', fuel = f' + 1 := ⟨fuel - 1, by omega⟩
+    rw [specEval_succ]
+    have hd0 : d ≠ 0 := by omega
+    have hcut : ¬ (d ≥ n) := by omega
+    simp only [Option.orElse_none, Option.getD_some, cutNow, hcut, decide_false, Bool.false_eq_true,
+      if_false, hd0]
+    rw [branches_single]
+    rw [fold_specBranch_ok _ _ _
+      (fun bw => match tbl j (bw.1.headD 0) with
+        | .out o => Ret.out o
+        | .hist i => Ret.hist (coalesceH add (bw.1.headD 0) (substSpec fam tbl add start k i)))]
+    · simp only [List.nil_append, List.map_map, Function.comp_def, List.headD_cons, substSpec]
+      rfl
+    · intro bw hbw
+      obtain ⟨fc, hfc, rfl⟩ := List.mem_map.mp hbw
+      have hbody : (substFn fam tbl add start j).body [fc.1]
+          = (match tbl j fc.1 with
+              | .out o => Prog.ret (Ret.out o)
+              | .hist i => Prog.call i [srcOfHist (fam.getD i [])] none fun r => Prog.ret (Ret.hist (coalesceH add fc.1 r))) := rfl
+      simp only [List.headD_cons]
+      rw [hbody]
+      cases htbl : tbl j fc.1 with
+      | out o => simp only [specProg]
+      | hist i =>
+        simp only [specProg]
+        rw [ih (d + 1) fuel' _ _ i (by omega) (by omega) (by omega)]
+
+/-- **C08, substitute**: `fam[start].substitute(expand, coalesce, max_depth=n)` — run through the
+context-variable evaluator from a fresh interpreter — is exactly the bounded recursion with `n`
+levels, in lowest terms, and leaves the context variable unset -/
+theorem substEval_eq_spec (fam : List (Hist Int)) (tbl : Nat → Int → SubAct) (add : Bool) (start n fuel : Nat)
+    (hf : n < fuel) :
+    substEval fuel fam tbl add start (some (.int n)) none
+      = (.ok (lowestTerms leInt (substSpec fam tbl add start n start)), none) := by
+  unfold substEval
+  rw [evalFn_refines]
+  congr 1
+  obtain ⟨fuel', rfl⟩ : ∃ f', fuel = f' + 1 := ⟨fuel - 1, by omega⟩
+  rw [specEval_succ]
+  cases n with
+  | zero => simp [cutNow, substFn, substSpec]
+  | succ k =>
+    have hcut : ¬ (0 ≥ k + 1) := by omega
+    simp only [Option.getD_none, Option.orElse_some, Option.getD_some, cutNow, hcut, decide_false,
+      Bool.false_eq_true, if_false, if_true]
+    rw [branches_single]
+    rw [fold_specBranch_ok _ _ _
+      (fun bw => match tbl start (bw.1.headD 0) with
+        | .out o => Ret.out o
+        | .hist i => Ret.hist (coalesceH add (bw.1.headD 0) (substSpec fam tbl add start k i)))]
+    · simp only [List.nil_append, List.map_map, Function.comp_def, List.headD_cons, substSpec]
+      rfl
+    · intro bw hbw
+      obtain ⟨fc, hfc, rfl⟩ := List.mem_map.mp hbw
+      have hbody : (substFn fam tbl add start start).body [fc.1]
+          = (match tbl start fc.1 with
+              | .out o => Prog.ret (Ret.out o)
+              | .hist i => Prog.call i [srcOfHist (fam.getD i [])] none fun r => Prog.ret (Ret.hist (coalesceH add fc.1 r))) := rfl
+      simp only [List.headD_cons]
+      rw [hbody]
+      cases htbl : tbl start fc.1 with
+      | out o => simp only [specProg]
+      | hist i =>
+        simp only [specProg]
+        rw [specEval_subst fam tbl add start (k + 1) k 1 fuel' _ _ i (by omega) (by omega) (by omega)]
+
+end Dyce
